@@ -88,3 +88,21 @@ def replay(ctx, cfg, events, ops, expected, mres, props):
             if d:
                 ctx.disagree("six links after an editing call ~ Model.Edit / Model.Heap", case, d[:4], None)
                 return
+    if mres is not None and len(mres) == len(ops) + 2:
+        compare_views(ctx, forest, mres[-1], {"events": events, "ops": ops, "step": len(ops) - 1})
+
+
+def compare_views(ctx, forest, views, case):
+    """The model's traversal generators (Model/Iter.v) vs the implementation's, for every live element."""
+    from bs4.element import Tag
+    names = ["next_elements", "previous_elements", "next_siblings", "previous_siblings", "parents", "descendants"]
+    for i, o in enumerate(forest.objs):
+        if o is None or forest.dead(o):
+            continue
+        got = [list(o.next_elements), list(o.previous_elements), list(o.next_siblings), list(o.previous_siblings),
+               list(o.parents), list(o.descendants) if isinstance(o, Tag) else []]
+        for k in range(6):
+            ids = [forest.oid(e) for e in got[k]]
+            if ids != views[i][k]:
+                ctx.disagree("traversal generator %s ~ Model.Iter" % names[k], case, {"element": i, "ids": ids}, views[i][k])
+                return
